@@ -170,6 +170,71 @@ def taintedFrom (T : List Facts) (f : FnId) : List FnId :=
 end Cotengra.Flow
 
 /-!
+## `get_rng` (cotengra/utils.py:731-750), branch by branch
+
+    if seed is None:                                       return random          # the global module
+    elif isinstance(seed, random.Random) or seed is random: return seed            # the caller's generator
+    else:                                                   return random.Random(seed)
+
+`random.Random(x)` accepts `None`, `int`, `float`, `str`, `bytes`, `bytearray` and raises
+`TypeError` for anything else (a numpy `Generator`, a tuple ...).  A generator *instance* passed as
+the seed is shared, not copied: draws made through the returned object advance the caller's
+generator.
+-/
+namespace Cotengra.GetRng
+open Cotengra.Flow
+
+/-- what is passed as `seed` -/
+inductive SeedArg where
+  | none
+  /-- an integer (or a str / bytes / float: hashed by CPython independently of PYTHONHASHSEED) -/
+  | int (n : Nat)
+  /-- an instance of `random.Random` in state `g` -/
+  | inst (g : Gen)
+  /-- the module `random` itself -/
+  | globalMod
+  /-- an object `random.Random` cannot be seeded with (numpy Generator, tuple, ...) -/
+  | unsupported
+
+/-- which generator the returned object draws from -/
+inductive RngOut where
+  | global
+  | fresh (g : Gen)
+  | shared (g : Gen)
+  | typeError
+
+def getRng (mk : Nat → Nat → Nat) : SeedArg → RngOut
+  | .none => .global
+  | .globalMod => .global
+  | .inst g => .shared g
+  | .int n => .fresh (Gen.ofSeed mk n)
+  | .unsupported => .typeError
+
+/-- draw `n` values from a generator -/
+def drawN : Nat → Gen → List Nat × Gen
+  | 0, g => ([], g)
+  | n + 1, g => let (v, g') := g.next; let (vs, g'') := drawN n g'; (v :: vs, g'')
+
+/-- the `n` values drawn through `get_rng(arg)` when the process-global generator is `glob`,
+    the global generator afterwards and -- for a shared instance -- the caller's generator
+    afterwards; `none` = `TypeError` -/
+def drawsVia (mk : Nat → Nat → Nat) (arg : SeedArg) (glob : Gen) (n : Nat) :
+    Option (List Nat × Gen × Option Gen) :=
+  match getRng mk arg with
+  | .global => let (vs, g') := drawN n glob; some (vs, g', none)
+  | .fresh g => some ((drawN n g).1, glob, none)
+  | .shared g => let (vs, g') := drawN n g; some (vs, glob, some g')
+  | .typeError => none
+
+/-- the argument is an integer seed or a generator instance: what the property calls "a seed" -/
+def SeedArg.seeded : SeedArg → Bool
+  | .int _ => true
+  | .inst _ => true
+  | _ => false
+
+end Cotengra.GetRng
+
+/-!
 ## hidden mutable state shared between an object and its copies
 
 Every non-inplace method of `ContractionTree` works on `self.copy()`, and `copy` is
